@@ -113,13 +113,26 @@ fn stat_cfg<T: Sc>() -> LmCfg {
 }
 
 fn judge_stationary<T: Sc>(idx: usize, l: &StLine, rep: &mut Report) {
+    // the instance itself and its scaled-residual twins (VPStats!ScaleLaw): r0 * 2^-k
+    let ks: &[i32] = if T::NAME == "f64" { &[0, 20, 30] } else { &[0, 8] };
+    for &k in ks {
+        judge_stationary_scaled::<T>(idx, l, k, rep);
+    }
+}
+
+fn judge_stationary_scaled<T: Sc>(idx: usize, l: &StLine, kexp: i32, rep: &mut Report) {
+    let t = (2.0f64).powi(-kexp);
     let n = l.x.len();
     let (m, p) = (l.fam.m, l.fam.p);
     let table = table_of::<T>(&l.fam, &l.a, &l.phi, &l.dphi, n);
     let xs: Vec<T> = l.x.iter().map(|&v| T::of64(v as f64)).collect();
-    let y = DMatrix::from_fn(n, 1, |i, _| T::of64(l.y[i] as f64));
+    // y = Phi c + t r0  (exactly representable: small integers plus r0 * 2^-k)
+    let y = DMatrix::from_fn(n, 1, |i, _| T::of64((l.y[i] - l.r0[i]) as f64 + t * l.r0[i] as f64));
+    if (0..n).any(|i| y[(i, 0)].to64() != (l.y[i] - l.r0[i]) as f64 + t * l.r0[i] as f64) {
+        return; // not exact in this scalar type
+    }
     let w: Option<Vec<T>> = if l.w.is_empty() { None } else { Some(l.w.iter().map(|&v| T::of64(v as f64)).collect()) };
-    let tol = T::tol();
+    let tol = if kexp == 0 { T::tol() } else { T::tol() * 100.0 };
     let band_tol = if T::NAME == "f64" { 2e-4 } else { 5e-3 };
     let mut kinds = vec![MKind::Table, MKind::TableBuilt];
     if poly_is_family(&l.fam.name) {
@@ -129,10 +142,10 @@ fn judge_stationary<T: Sc>(idx: usize, l: &StLine, rep: &mut Report) {
     let ps: Vec<f64> = l.pnum.iter().map(|&v| v as f64 / 1000.0).collect();
     let nu = l.nu as f64;
     let deth = l.deth as f64;
-    let rr = l.rr as f64;
+    let rr = l.rr as f64 * t * t;
     for (ki, &kind) in kinds.iter().enumerate() {
         let par = (idx + ki) % 2 == 1;
-        let flav = format!("line={} fam={}({},{},{}) {} {:?} par={}", idx, l.fam.name, m, p, l.fam.seed, T::NAME, kind, par);
+        let flav = format!("line={} fam={}({},{},{}) {} {:?} par={} rscale=2^-{}", idx, l.fam.name, m, p, l.fam.seed, T::NAME, kind, par, kexp);
         let det = |what: &str, dv: f64| json!({"flavour": flav, "what": what, "dev": dv, "a": l.a, "c": l.c, "r0": l.r0, "w": l.w});
         let prob = match make::<T>(kind, &l.fam, &table, &xs, &l.a, &y, w.as_deref(), par) {
             Ok(p) => p,
@@ -152,7 +165,7 @@ fn judge_stationary<T: Sc>(idx: usize, l: &StLine, rep: &mut Report) {
         };
         // the start is exactly stationary: the fit must stop there after one evaluation
         if !(out.fit.nfev == 1 && out.fit.termination == "Orthogonal") {
-            rep.count("not_stationary_numerically", 1);
+            rep.count(if kexp == 0 { "not_stationary_numerically" } else { "scaled_twin_not_stationary_numerically" }, 1);
             if rep.notes.len() < 3 {
                 rep.notes.push(format!("instance left the lattice: {} term={} nfev={}", flav, out.fit.termination, out.fit.nfev));
             }
@@ -175,7 +188,8 @@ fn judge_stationary<T: Sc>(idx: usize, l: &StLine, rep: &mut Report) {
         let mut worst = 0.0f64;
         if st.wres.len() == l.rw.len() {
             for i in 0..n {
-                worst = worst.max(dev(st.wres[i].to64(), l.rw[i], 1));
+                let e = l.rw[i] as f64 * t;
+                worst = worst.max((st.wres[i].to64() - e).abs() / e.abs().max(t));
             }
         } else {
             worst = f64::INFINITY;
